@@ -1215,6 +1215,13 @@ impl DirectLink {
         self.0.connection.as_ref().map(|connection| connection.slot)
     }
 
+    /// Whether the gate this link was made for has stopped taking commands:
+    /// its unit has terminated, or has moved on to the gate of a newer
+    /// configuration.
+    pub fn is_gate_gone(&self) -> bool {
+        self.0.commands.is_closed()
+    }
+
     /// Suspends the link.
     ///
     /// A suspended link will not receive any payload updates from the
